@@ -141,6 +141,13 @@ class SpecMixin:
                 return VBool(True)  # antecedent excluded by the path condition: the consequent need not be defined here
             b = self.truth(self.eval(node.args[1], fr))
             return VBool(z3.Implies(a, b))
+        if name == "bound":
+            # bound('x'): the local x is bound on this path (a fact of the path, decided while executing it)
+            nm = node.args[0].value
+            from .ev_expr import UNBOUND
+
+            v = fr.locals.get(nm, UNBOUND)
+            return VBool(v is not UNBOUND)
         if name == "iff":
             a = self.truth(self.eval(node.args[0], fr))
             b = self.truth(self.eval(node.args[1], fr))
